@@ -643,9 +643,9 @@ def rule_r10(ctx) -> List[R.Inst]:
 
 def _setter_shape_problem(f: ast.FunctionDef, stores, vparam, tgt_text, aliases, cast_ok=False):
     """A generated setter stores the value it is given, on every path: no early exit, every branch stores, and the stored
-    value is the parameter itself (accepted conversions: `.df` of it; for item fields only — one scalar cell — a cast to the
-    dtype the cell currently has, the idiom of the pinned tree; a whole column cast to its old dtype truncates float times
-    assigned to an integer-typed column)."""
+    value is the parameter itself (accepted conversion: `.df` of it).  A cast to the dtype the target has *now* is not the
+    value given: the backing Series / column of an object built from whole numbers is int-typed, so a float time assigned
+    later is truncated (F31: O2Jam long-note lengths)."""
     for n in ast.walk(f):
         if isinstance(n, ast.Return):
             return (f"the generated setter returns early on some values (line {n.lineno}): those assignments are silently dropped",
@@ -743,7 +743,7 @@ def rule_r11(ctx) -> List[R.Inst]:
                     return t.replace(kb, "k_")
                 tg = {tgt_text(x) for x in real}
                 vparam = args[1].arg if len(args) > 1 else None
-                prob = _setter_shape_problem(f, real, vparam, tgt_text, set(alias), cast_ok=(deco == "item_props"))
+                prob = _setter_shape_problem(f, real, vparam, tgt_text, set(alias), cast_ok=False)
                 other_loop = sorted({x.id for b in f.body for x in ast.walk(b) if isinstance(x, ast.Name) and
                                      isinstance(x.ctx, ast.Load)} & ({y.id for y in ast.walk(lp.target) if isinstance(y, ast.Name)} - {kvar}))
                 if other_loop:
@@ -765,6 +765,11 @@ def rule_r11(ctx) -> List[R.Inst]:
                      R.viol("C16.R11", f"{deco}.register", file, lp.lineno,
                             "the generated accessor pair is not registered under its own key as property(getter, setter)",
                             construct="; ".join(unparse(r) for r in reg) or "no setattr"))
+    for i_ in insts:
+        # a dependent property inherits a getter / registration instance when it reaches a class built by that decorator,
+        # a setter instance only when one of its functions assigns through such a setter (deps._setter_uses)
+        d_ = i_.key.split(".")[0]
+        i_.reach = (f"reamber.base.Property.{d_}#setter",) if i_.key.endswith(".setter") else (f"reamber.base.Property.{d_}",)
     return insts
 
 
